@@ -115,7 +115,8 @@ partial def loop (h : IO.FS.Stream) (acc : RunAcc) : IO RunAcc := do
             else "exactness"
           IO.println s!"DISAGREE line={acc.lines} scenario={acc.scenario} class={cls} op={toks.head!} kind={out.kind} model=[{out.obs}] impl=[{implC}]"
           let acc := { acc with disagree := acc.disagree + 1 }
-          if cls = "safety" || cls = "driver-error" then loop h { acc with diverged := true }
+          let stateless := match acc.world with | .abi => true | _ => false
+          if (cls = "safety" || cls = "driver-error") && !stateless then loop h { acc with diverged := true }
           else if cls = "completeness" then loop h acc            -- keep the pre-state, as the implementation did
           else loop h { acc with world := w' }
     | _ =>
